@@ -466,6 +466,11 @@ func c20ShapesChild() {
 			if strings.Contains(f.name, "deep") && n > 9000 && !noDepthCap(f.name) {
 				continue
 			}
+			// every measurement starts right after a collection: the runtime's own bookkeeping for
+			// sync.Pool (a process-global list of all pools used since the last collection, grown by
+			// doubling) is otherwise charged to whichever call happens to trigger the next doubling -
+			// megabytes after a family that created 8000 pools, nothing to do with this document
+			runtime.GC()
 			m := f.measure(n)
 			b, _ := json.Marshal(m)
 			fmt.Fprintf(out, "C20-MEASURE %s\n", b)
@@ -479,6 +484,7 @@ func c20ShapesChild() {
 		// adaptive deepening: while the cost still grows faster than 3x per doubling the family is
 		// followed to larger sizes (the absolute bound still decides; a linear family stops here)
 		for !violated && prev.Alloc > 0 && float64(last.Alloc) >= 3*float64(prev.Alloc) && last.N < 300000 && last.Alloc < 6<<30 && (!strings.Contains(f.name, "deep") || noDepthCap(f.name)) {
+			runtime.GC()
 			m := f.measure(last.N * 2)
 			b, _ := json.Marshal(m)
 			fmt.Fprintf(out, "C20-MEASURE %s\n", b)
